@@ -7,6 +7,7 @@ import time
 from .model import AnalysisError
 
 VERIF = os.path.dirname(os.path.dirname(os.path.abspath(__file__)))
+OUT = os.environ.get("SVA_OUT", VERIF)  # self-tests redirect evidence/replays away from /verif
 
 
 class Finding:
@@ -125,7 +126,7 @@ def finish(ctx, level_note, assumptions, t0, explanation, exhaustive=False):
             known_hits.append((f, known[f.key]))
         else:
             violations.append(f)
-    rdir = os.path.join(VERIF, "replays", ctx.prop)
+    rdir = os.path.join(OUT, "replays", ctx.prop)
     os.makedirs(rdir, exist_ok=True)
     for old in os.listdir(rdir):
         if old.endswith(".json"):
@@ -144,7 +145,7 @@ def finish(ctx, level_note, assumptions, t0, explanation, exhaustive=False):
             "FINDING rule=%s construct=%s %s:%s %s -- %s"
             % (f.rule, f.construct, "svgelements/svgelements.py", f.line, f.detail, f.message)
         )
-        print("VIOLATION property=%s replay=%s" % (ctx.prop, os.path.relpath(rp, VERIF)))
+        print("VIOLATION property=%s replay=%s" % (ctx.prop, os.path.relpath(rp, OUT)))
     distinct = len(ctx.constructs)
     ev = {
         "property_id": ctx.prop,
@@ -174,8 +175,8 @@ def finish(ctx, level_note, assumptions, t0, explanation, exhaustive=False):
         "wall_s": round(time.time() - t0, 3),
         "violations": len(violations),
     }
-    os.makedirs(os.path.join(VERIF, "evidence"), exist_ok=True)
-    with open(os.path.join(VERIF, "evidence", "%s.json" % ctx.prop), "w") as fh:
+    os.makedirs(os.path.join(OUT, "evidence"), exist_ok=True)
+    with open(os.path.join(OUT, "evidence", "%s.json" % ctx.prop), "w") as fh:
         json.dump(ev, fh, indent=1, default=str)
     print(
         "%s %s: %d obligations, %d discharged, %d known finding(s), %d violation(s), %.2fs"
